@@ -22,8 +22,9 @@ CHECKS = {
          'Decides on every CFG path of the scan family that the key of an INF endpoint is never used (R-INF), that '
          'argument validation precedes every tree access and rejects with ERR_BAD_USAGE (R-VAL), that the range '
          'decision table equals the documented one over all 45 abstract rows (R-TAB, exhaustive), and that the '
-         'name-based overload resolves the storage first (R-STG). It does not decide that the returned set equals '
-         'the interval.',
+         'name-based overload resolves the storage first (R-STG), that the truncation test dominates every growth of '
+         'the result list (R-MAX) and that key lengths are compared at full width (R-NARROW). It does not decide that '
+         'the returned set equals the interval.',
          'clang 14 AST/CFG; (string_view, scan_endpoint) pairs recognised by parameter adjacency; interval contents '
          'are runtime data and undecided',
          'DESIGN.md section 5, C03'),
@@ -117,7 +118,12 @@ CHECKS = {
          'and INF normalisation (R-VAL); only validated data is yielded or descended into and values are validated '
          'against removes (R-VAR, R-RV); boundary load order (R-ORD); no silent retry after a failed check under '
          'early_abort (R-EA); callback before leaving a border, paired between findfirst and findnext (R-CB); resume '
-         'state written on every yielding exit (R-RES). That the produced sequence equals the interval is not decided.',
+         'state written on every yielding exit (R-RES); resume-stack discipline: a layer is abandoned only when its '
+         'enumeration ended or a fresh validated link lookup found it gone (R-POP), copies of the stack top are not '
+         'used after the stack changed (R-STALE), a mirror of the saved state diverges only to feed the push of the '
+         'child element (R-CACHE), the saved layer root is the root the border was found from (R-LROOT), the '
+         'neighbour back link is tested after the neighbour snapshot (R-BACK). That the produced sequence equals the '
+         'interval is not decided.',
          'clang 14 AST/CFG; iscan_check_retry OK means version and permutation unchanged',
          'DESIGN.md section 5, C10'),
  'C14': ('CAS-protocol typestate, claim/token pairing, ordering rule, compile-time capacity witnesses',
@@ -157,7 +163,8 @@ CHECKS = {
          'each of the 12 hand-written comparison sites (key_tuple operators, three leaf lookups, insert rank, interior '
          'routing and separator position, both split side decisions) implements the one bytewise-lexicographic order '
          'for its role (R-CMP); that the sort and the cursor only use key_tuple operators (R-USE); and the slicing rule '
-         '(R-SLICE). How callers use the results and order across layers are not decided.',
+         '(R-SLICE); and that key lengths reach comparisons at full width, never after an unbounded conversion to the '
+         '8-bit key_length_type (R-NARROW). How callers use the results and order across layers are not decided.',
          'clang 14 AST/CFG; memcmp compares unsigned bytes; stored slices are zero padded',
          'DESIGN.md section 5, C18'),
  'C20': ('accumulator-effect patterns over the three mem_usage bodies',
